@@ -3,6 +3,9 @@ import XpmVerif.Basic.Sha256
 import XpmVerif.Model.IdentImpl
 import XpmVerif.Model.Deps
 import XpmVerif.Generated.HashFlags
+import XpmVerif.Model.ArgDecl
+import XpmVerif.Model.ClassTable
+import XpmVerif.Model.IdentEnv
 /-! Line-protocol driver for M1 (identifiers, sealing): C01 C02 C03 C14 C20. -/
 open Lean XpmVerif XpmVerif.J XpmVerif.Ident
 
@@ -47,7 +50,68 @@ partial def valOf (j : Json) : Val :=
   | .ok r => .ref (nat r)
   | _ => .none
 
-def argOf (j : Json) : Arg :=
+/-! declarations (`Model/ArgDecl.lean`): `{"name","kind","ty","optional","attr"}` with `attr` = null | {"value": v} |
+    {"fieldValue": v} | "fieldFactory" | "fieldEmpty" -/
+def kindOf : String → ArgDecl.Kind
+  | "meta" => .metaParam | "option" => .option | "constant" => .constant | "pathgen" => .pathgen | "factory" => .factory
+  | _ => .param
+def tyOf : String → ArgDecl.TyTag
+  | "int" => .int | "float" => .float | "str" => .str | "bool" => .bool | "path" => .path | "enum" => .enum
+  | "cfg" => .cfg | "list" => .list | "dict" => .dict | _ => .any
+def attrOf (j : Json) : ArgDecl.ClassAttr :=
+  if isNull j then .absent else
+  match j.getStr? with
+  | .ok "fieldFactory" => .fieldFactory
+  | .ok _ => .fieldEmpty
+  | _ =>
+  match j.getObjVal? "value" with
+  | .ok v => .value (valOf v)
+  | _ =>
+  match j.getObjVal? "fieldValue" with
+  | .ok v => .fieldValue (valOf v)
+  | _ => .absent
+def declOf (j : Json) : ArgDecl.Decl :=
+  { name := unhex (strF j "name"), kind := kindOf (strF j "kind"), ty := tyOf (strF j "ty"), optional := boolF j "optional",
+    attr := attrOf (fld j "attr") }
+
+/-- class table (`Model/ClassTable.lean`): `[{"bases": [i], "mro": [i], "own": [decl]}]` -/
+def tableOf (j : Json) : ArgDecl.ClassTable :=
+  (arr j).map (fun c => { bases := (arrF c "bases").map nat, mro := (arrF c "mro").map nat, own := (arrF c "own").map declOf })
+
+def flagsOfArg : Option Arg → Json
+  | none => Json.str "rejected"
+  | some a => Json.mkObj [("ignored", a.ignored), ("generator", a.generator), ("constant", a.constant),
+      ("required", a.required), ("hasDefault", a.default.isSome)]
+
+/-- the flags `mkArg` derives for a declaration, as compared with the real `Argument` object. -/
+def flagsJ (d : ArgDecl.Decl) : Json :=
+  match ArgDecl.mkArg d with
+  | none => Json.str "rejected"
+  | some a => Json.mkObj [("ignored", a.ignored), ("generator", a.generator), ("constant", a.constant),
+      ("required", a.required), ("hasDefault", a.default.isSome)]
+
+/-- an argument of a node: derived from its declaration when the harness sends one (flags by `mkArg`), else the
+    flags read from the real object (declaration forms outside the model). -/
+def withDefaultVal (d : ArgDecl.Decl) (dv : Val) : ArgDecl.Decl :=
+  { d with attr := match d.attr with | .value _ => .value dv | .fieldValue _ => .fieldValue dv | a => a }
+
+/-- an argument sent as (class, parameter name): the declaration in force is resolved by the model through the class table
+    of the library (`ArgDecl.effDecl`, rule from the source), the flags derived by `mkArg`; `dv` = the declared default as a
+    model value (it may refer to nodes of the graph). -/
+def argOfTable (t : ArgDecl.ClassTable) (j : Json) : Arg :=
+  let nm := unhex (strF j "name")
+  match (ArgDecl.effDecl t Gen.ArgFlags.inheritRule (natF j "cls") nm).bind
+      (fun d => (withDefaultVal d (valOf (fld j "dv"))).toArg (valOf (fld j "value"))) with
+  | some a => a
+  | none => { name := nm, value := valOf (fld j "value") }
+
+def argOf (t : ArgDecl.ClassTable) (j : Json) : Arg :=
+  if !isNull (fld j "cls") then argOfTable t j else
+  if !isNull (fld j "decl") then
+    match (declOf (fld j "decl")).toArg (valOf (fld j "value")) with
+    | some a => a
+    | none => { name := unhex (strF (fld j "decl") "name"), value := valOf (fld j "value") }
+  else
   { name := unhex (strF j "name"), ignored := boolF j "ignored", generator := boolF j "generator",
     constant := boolF j "constant", required := boolF j "required",
     default := (if isNull (fld j "default") then none else some (valOf (fld j "default"))),
@@ -55,25 +119,61 @@ def argOf (j : Json) : Arg :=
 
 def optBool (j : Json) : Option Bool := if isNull j then none else some (J.bool j)
 
-def nodeOf (j : Json) : Node :=
-  { typeId := unhex (strF j "typeId"), args := (arrF j "args").map argOf, task := optNat (fld j "task"),
+def nodeOf (t : ArgDecl.ClassTable) (j : Json) : Node :=
+  { typeId := unhex (strF j "typeId"), args := (arrF j "args").map (argOf t), task := optNat (fld j "task"),
     mflag := optBool (fld j "meta"), sealed := boolF j "sealed",
     preTasks := (arrF j "pre").map nat, initTasks := (arrF j "init").map nat }
+
+/-- the non-signature fields of a node (`Model/IdentEnv.lean`): tags, added dependencies. -/
+def depOf (j : Json) : ExtraDep :=
+  match j.getObjVal? "job" with
+  | .ok n => .job (nat n)
+  | _ => .token (natF j "token") (natF j "count")
+def xnodeOf (t : ArgDecl.ClassTable) (j : Json) : XNode :=
+  { toNode := nodeOf t j,
+    tags := (arrF j "tags").map (fun kv => (unhex (J.str ((arr kv).getD 0 Json.null)), valOf ((arr kv).getD 1 Json.null))),
+    extraDeps := (arrF j "deps").map depOf }
+def envOf (j : Json) : SubmitEnv :=
+  { launcher := optNat (fld j "launcher"), workspace := natF j "workspace",
+    runMode := match strF j "runmode" with | "dry-run" => .dryRun | "generate-only" => .generateOnly | _ => .normal }
 
 abbrev D := List Nat
 def hc : HC D := { H := Sha256.hashBytes, emb := id, le := bytesLe }
 
 def okJ : Json := Json.mkObj [("ok", true)]
 
-def stepJ (s : St D) (j : Json) : St D × Json :=
-  let run (op : Op) : St D × Json :=
-    let (s', out) := step hc Gen.loopFlagStored s op
-    (s', match out with
+/-- driver state: the machine and the class tables of the libraries registered by `lib` lines. -/
+abbrev DSt := XSt D × List (String × ArgDecl.ClassTable)
+
+def stepX (tables : List (String × ArgDecl.ClassTable)) (xs : XSt D) (j : Json) : XSt D × Json :=
+  let outJ (out : Out D) : Json := match out with
       | .ok => okJ
       | .id d => Json.mkObj [("id", hexOf d)]
-      | .sealedError => Json.mkObj [("err", "sealed")])
+      | .sealedError => Json.mkObj [("err", "sealed")]
+  let xrun1 (op : XOp) : XSt D × Json :=
+    let (s', out) := xstep hc Gen.loopFlagStored xs op
+    (s', outJ out)
+  let run (op : Op) : XSt D × Json := xrun1 (.core op)
+  let s := xs.st
+  let keep (r : St D × Json) : XSt D × Json := ({ xs with st := r.1 }, r.2)
   match strF j "op" with
-  | "graph" => ({ g := { nodes := (arrF j "nodes").map nodeOf }, c := Caches.empty }, okJ)
+  | "graph" =>
+    -- the extended graph (tags, added dependencies, submission environment) is built from the line; the identifier machine
+    -- starts from its erasure
+    let t := ((tables.find? (fun kt => kt.1 == strF j "lib")).map (·.2)).getD []
+    let x : XGraph := { nodes := (arrF j "nodes").map (xnodeOf t), env := envOf (fld j "env") }
+    ({ st := { g := x.core, c := Caches.empty },
+       tags := (x.nodes.zipIdx.map (fun (nd, i) => nd.tags.map (fun kv => (i, kv.1, kv.2)))).flatten,
+       deps := (x.nodes.zipIdx.map (fun (nd, i) => nd.extraDeps.map (fun d => (i, d)))).flatten,
+       env := x.env },
+     okJ)
+  | "tag" => xrun1 (.tag (natF j "n") (unhex (strF j "k")) (valOf (fld j "v")))
+  | "adddep" => xrun1 (.addDep (natF j "n") (depOf (fld j "dep")))
+  | "env" => xrun1 (.setEnv (envOf (fld j "env")))
+  | "extras" =>  -- what the model holds of the non-signature inputs (echoed to the harness)
+    (xs, Json.mkObj [("tags", xs.tags.length), ("deps", xs.deps.length), ("workspace", xs.env.workspace),
+      ("launcher", match xs.env.launcher with | some l => (l : Json) | none => Json.null),
+      ("runmode", match xs.env.runMode with | .normal => "normal" | .dryRun => "dry-run" | .generateOnly => "generate-only")])
   | "seal" => run (.sealOp (natF j "n"))
   | "raw" => run (.reqRaw (natF j "n"))
   | "full" => run (.reqFull (natF j "n"))
@@ -81,15 +181,34 @@ def stepJ (s : St D) (j : Json) : St D × Json :=
   | "setmeta" => run (.setMeta (natF j "n") (optBool (fld j "b")))
   | "addpre" => run (.addPretask (natF j "n") (natF j "p"))
   | "spec" =>   -- cache-free specification of the full identifier
-    (s, Json.mkObj [("id", hexOf (fullId hc s.g (natF j "n")))])
+    keep (s, Json.mkObj [("id", hexOf (fullId hc s.g (natF j "n")))])
   | "deps" =>   -- dependencies collected when node n is submitted (its own `task` field is still unset)
     let n := natF j "n"
     let g' := setNode s.g n (fun nd => { nd with task := none })
     let explicit := (arrF j "explicit").map nat
     let loaded := (arrF j "loaded").map nat      -- nodes obtained by deserialisation (`__xpm__.loaded`)
     let all := (collectDeps g' (fun k => loaded.contains k) n ++ explicit).eraseDups
-    (s, Json.mkObj [("deps", Json.arr ((all.toArray.qsort (· < ·)).map (fun (k : Nat) => (k : Json))))])
-  | "sealed" => (s, Json.mkObj [("sealed", Json.arr ((s.g.nodes.map (fun nd => (nd.sealed : Json))).toArray))])
-  | op => (s, Json.mkObj [("error", Json.str s!"bad-op {op}")])
+    keep (s, Json.mkObj [("deps", Json.arr ((all.toArray.qsort (· < ·)).map (fun (k : Nat) => (k : Json))))])
+  | "flags" =>  -- flags derived from the declarations of a class library: [[flags per declaration] per class]
+    if !isNull (fld j "table") then
+      -- with the class table: the model resolves which declaration is in force for each parameter name of each class
+      -- (`classArg`: own declaration, else through the bases by the rule read from the source; class attribute along the MRO)
+      let t := tableOf (fld j "table")
+      keep (s, Json.mkObj [("flags", Json.arr ((arrF j "classes").map (fun c =>
+        Json.arr (((arrF c "names").map (fun nm =>
+          match ArgDecl.effDecl t Gen.ArgFlags.inheritRule (natF c "idx") (unhex (J.str nm)) with
+          | none => Json.str "missing"
+          | some d => flagsOfArg (ArgDecl.mkArg d))).toArray))).toArray),
+        ("rule", match Gen.ArgFlags.inheritRule with | .depthFirst => "depthFirst" | .mro => "mro")])
+    else
+    keep (s, Json.mkObj [("flags", Json.arr ((arrF j "classes").map (fun c =>
+      Json.arr (((arrF c "decls").map (fun d => flagsJ (declOf d))).toArray))).toArray)])
+  | "sealed" => keep (s, Json.mkObj [("sealed", Json.arr ((s.g.nodes.map (fun nd => (nd.sealed : Json))).toArray))])
+  | op => (xs, Json.mkObj [("error", Json.str s!"bad-op {op}")])
 
-def main : IO Unit := J.loop stepJ { g := { nodes := [] }, c := Caches.empty }
+def stepJ (s : DSt) (j : Json) : DSt × Json :=
+  match strF j "op" with
+  | "lib" => ((s.1, (strF j "key", tableOf (fld j "table")) :: s.2), okJ)
+  | _ => let (xs, out) := stepX s.2 s.1 j; ((xs, s.2), out)
+
+def main : IO Unit := J.loop stepJ ({ st := { g := { nodes := [] }, c := Caches.empty } }, [])
